@@ -26,7 +26,7 @@ class A(Adapter):
         from jumanji.environments.packing.tetris import Tetris
 
         # (rows, cols, time limit)
-        rows = [(10, 10, 400), (4, 4, 30), (6, 4, 40), (5, 9, 7), (8, 5, 3)]
+        rows = [(10, 10, 400), (4, 4, 30), (6, 4, 40), (5, 9, 7), (8, 5, 3), (16, 6, 60)]  # 16 rows: padded height 19 > 16 (sort stability matters)
         if tier != "quick":
             rows += [(4, 7, 50), (12, 6, 100), (7, 7, 1), (20, 10, 400)]
         out = []
